@@ -71,17 +71,23 @@ def _bounded(P, f):
     for pi, p in enumerate(f.params):
         if "*" in p["t"]:
             continue
-        # guard on this parameter at the top, with an exit
+        # guard on this parameter at the top, with an exit: `bound <= param` (a depth counting up) or
+        # `param <= small` (a budget counting down)
         guard = None
+        direction = None
+        ptype = p["t"].replace("const ", "")
         for s in f.body.walk():
             if s.k == "IfStmt":
                 kids = [x for x in s.c if x is not None]
                 t = cz(kids[0])
-                if t[0] == "bin" and t[1] in ("<=", "<") and t[3] == ("param", pi, p["t"].replace("const ", "")) \
-                        or (t[0] == "bin" and t[1] in ("<=", "<") and isinstance(t[3], tuple) and t[3][:2] == ("param", pi)):
-                    if _exits(kids[1], f):
-                        guard = (s, t)
-                        break
+                if not (t[0] == "bin" and t[1] in ("<=", "<") and _exits(kids[1], f)):
+                    continue
+                if isinstance(t[3], tuple) and t[3][:2] == ("param", pi):
+                    guard, direction = (s, t), "up"
+                    break
+                if isinstance(t[2], tuple) and t[2][:2] == ("param", pi) and t[3][0] == "int":
+                    guard, direction = (s, t), "down"
+                    break
         if guard is None:
             continue
         gnode, gt = guard
@@ -94,32 +100,49 @@ def _bounded(P, f):
             top = f.body.kids()
             order = {id(n_): k_ for k_, st_ in enumerate(top) for n_ in st_.walk()}
             dominated = gnode in top and all(order.get(id(c), -1) > top.index(gnode) for c in calls)
-        bound = gt[2]
+        bound = gt[2] if direction == "up" else gt[3]
         const_bound = bound[0] == "int"
-        # recursive calls pass a strictly larger value
+
+        def moves(t):
+            """t is param +/- k with k > 0 in the direction of the guard"""
+            if not (isinstance(t, tuple) and t and t[0] == "bin" and t[1] in ("+", "-")):
+                return False
+            a_, b_ = t[2], t[3]
+            isp = lambda x: isinstance(x, tuple) and x[:2] == ("param", pi)
+            k = None
+            if isp(a_) and isinstance(b_, tuple) and b_[0] == "int":
+                k = b_[1] if t[1] == "+" else -b_[1]
+            elif isp(b_) and isinstance(a_, tuple) and a_[0] == "int" and t[1] == "+":
+                k = a_[1]
+            if k is None:
+                return False
+            return k > 0 if direction == "up" else k < 0
+        # recursive calls pass a value strictly closer to the bound
         growing = True
         for c in calls:
             a = c.args()[pi]
             t = Canon(f)(a)
-            ok = any(s_ == ("bin", "+", ("int", 1), ("param", pi, t_p)) or s_ == ("bin", "+", ("param", pi, t_p), ("int", 1))
-                     for s_ in subtrees(t) for t_p in [p["t"].replace("const ", "")]) or \
-                (t[0] == "bin" and t[1] == "+" and ("param", pi, p["t"].replace("const ", "")) in (t[2], t[3])
-                 and any(x[0] == "int" and x[1] > 0 for x in (t[2], t[3])))
+            ok = moves(t) or any(moves(s_) for s_ in subtrees(t))
             if not ok:
-                # a local initialised from param + k
+                # a local initialised from param +/- k
                 x = a.strip_casts()
                 if x.k == "DeclRefExpr" and x.get("dk") == "local":
                     inits = [i for n_ in f.body.walk() if n_.k == "DeclStmt"
                              for d, i in zip(n_.get("decls", []), n_.c) if d.get("d") == x.get("d") and i is not None]
-                    ok = bool(inits) and any(
-                        s_[0] == "bin" and s_[1] == "+" and isinstance(s_[3], tuple) and s_[3][:2] == ("param", pi)
-                        or (s_[0] == "bin" and s_[1] == "+" and isinstance(s_[2], tuple) and s_[2][:2] == ("param", pi))
-                        for s_ in subtrees(Canon(f, inline=False)(inits[0])))
+                    written = any((is_assign(n_) or (n_.k == "UnaryOperator" and n_.op in ("++", "--"))) and
+                                  n_.c[0].strip().k == "DeclRefExpr" and n_.c[0].strip().get("d") == x.get("d") for n_ in f.body.walk())
+                    # (a cursor that is re-assigned from the recursive call's own result keeps moving the same way)
+                    rewritten_only_by_self = all(
+                        not (is_assign(n_) and n_.c[0].strip().k == "DeclRefExpr" and n_.c[0].strip().get("d") == x.get("d")) or
+                        (n_.c[1].strip_casts().k == "CallExpr" and n_.c[1].strip_casts().callee == f.name) for n_ in f.body.walk())
+                    ok = bool(inits) and (not written or rewritten_only_by_self) and any(
+                        moves(s_) for s_ in subtrees(Canon(f, inline=False)(inits[0])))
             growing = growing and ok
         if dominated and growing:
             verdict = True
-            detail = "guard `%s` on parameter `%s` (%s bound) precedes all %d recursive calls, which pass a larger value" % (
-                src([x for x in gnode.c if x is not None][0]), p["n"], "constant" if const_bound else "input-size", len(calls))
+            detail = "guard `%s` on parameter `%s` (%s bound) precedes all %d recursive calls, which pass a %s value" % (
+                src([x for x in gnode.c if x is not None][0]), p["n"], "constant" if const_bound else "input-size", len(calls),
+                "larger" if direction == "up" else "smaller")
             break
         detail = "guard on `%s` found but dominated=%s growing=%s" % (p["n"], dominated, growing)
     return verdict, detail, (calls[0] if calls else None)
